@@ -356,6 +356,48 @@ func runC10(r *vf.Run) {
 		}
 		r.Count("value_classes", 1)
 	}
+	// (round 7) tokens around the sizes of common read buffers: one value or field of 4 KiB .. 1 MiB anywhere in the tree
+	// (with quotes to double, with multi-byte characters), and every doubled character the decoder might want to undo
+	for i, n := range []int{4095, 4096, 4097, 32767, 32768, 65532, 65533, 65534, 65535, 65536, 65537, 70001, 131073, 300001, 1<<20 + 1} {
+		tid := fmt.Sprintf("long-token/%d", n)
+		if !r.Want(tid) {
+			continue
+		}
+		var v string
+		switch i % 3 {
+		case 0:
+			v = strings.Repeat("v", n)
+		case 1:
+			v = strings.Repeat(`x"`, n/2) + "y"
+		default:
+			v = strings.Repeat("é", n/2) + "z"
+		}
+		f := "f" + strings.Repeat("G9_", n/3)
+		for k, t := range []*oracle.Expr{oracle.Eq("a", v), oracle.And(oracle.Eq("b", "2"), oracle.Not(oracle.Eq("a", v)), oracle.Eq("c", "3")), oracle.Or(oracle.Eq(f, "1"), oracle.Eq("a", "2"))} {
+			r.Eval(1)
+			gb := [][]string{nil, {"a"}, {f, "a"}}[k]
+			if d := roundTrip(t, gb); d != "" {
+				r.Violation(tid, "roundtrip", map[string]any{"token_bytes": n, "position": []string{"only comparison", "middle operand below NOT", "field and group-by entry"}[k], "problem": head(d, 600)})
+				break
+			}
+		}
+		r.Count("long_tokens_round_tripped", 1)
+	}
+	for i, ch := range []string{"'", "\\", "`", "$", "&", "|", "^", ";", ",", " ", "\n", "%", "é", "\x00", "\t", "=", "(", ")"} {
+		tid := fmt.Sprintf("doubled/%d", i)
+		if !r.Want(tid) {
+			continue
+		}
+		for _, v := range []string{ch + ch, "it" + ch + ch + "s", ch + ch + ch, "a" + ch + "b" + ch + ch + "c", ch + ch + ch + ch, ch + `"` + ch, `"` + ch + ch + `"`} {
+			r.Eval(1)
+			t := oracle.Or(oracle.Eq("a", v), oracle.Not(oracle.Eq("b", v+"x")))
+			if d := roundTrip(t, nil); d != "" {
+				r.Violation(tid, "roundtrip", map[string]any{"value": fmt.Sprintf("%q", v), "problem": head(d, 600)})
+				break
+			}
+		}
+		r.Count("doubled_character_values", 1)
+	}
 	for _, c := range []string{"OR under AND", "AND under OR", "AND/OR under NOT", "NOT under NOT", "single-operand wrapper as operand", "single-operand wrapper at the root", "same operator nested"} {
 		r.Floor("context seen: "+c, r.HasCover("contexts", c))
 	}
